@@ -11,4 +11,9 @@ CHECKS = {
         "note": "Trusted: Lean kernel; hand-written model lean/Wf/Model/Adapter.lean; BufReader contract (fill_buf/consume) modelled, not verified; sticky EOF and no I/O errors assumed. Three genuine defects found by attempting this proof were repaired in /repo (see known_findings.txt: fixed entries).",
         "technique": "Lean 4 refinement proof (simulation + induction over operation histories) + differential correspondence with winter-utils",
     },
+    "C10": {
+        "text": "f64: theorems about the Lean code REGENERATED from f64/mod.rs on every run: for every reduced stored word add/sub/mul/neg/double/new return reduced words whose canonical values are the sum/difference/product/... modulo p=2^64-2^32+1 (Montgomery reduction proved for all 2^128 inputs with high limb < p), as_int is canonical for every word, == is value equality; extension formulas (quadratic x^2-x+2, cubic x^3-x-1: mul, square, mul_base) equal multiplication modulo the documented polynomial over any commutative ring; the inversion chain is x^(p-2). f62/f128 and the extension wrappers/exponentiation loops: value-level spec model + correspondence against an independent modular-arithmetic oracle (partial: no limb-level theorem yet).",
+        "note": "Trusted: Lean kernel + bv_decide axioms (listed in evidence); translator tools/rs2lean.py and the BitVec reading of Rust integer operators; correspondence stream c10 covers all three fields, five extensions, representation-level f64 words at the proofs' case-split boundaries, operation chains producing non-canonical intermediates, and termination (3 s watchdog). Three genuine defects found and fixed (f64 double, f64 mul_small, f62 inv hang).",
+        "technique": "Lean 4 proof over source-translated kernels (bv_decide + omega + ring) + differential correspondence with winter-math",
+    },
 }
